@@ -148,6 +148,27 @@ Proof.
   destruct (known_c10_message bs); [contradiction|reflexivity].
 Qed.
 
+(* ============ size of what is built vs. length of the input ============ *)
+(* No decoder reserves capacity from a wire count (there is no with_capacity /
+   reserve / vec![x; n] in any decoder): every element pushed was first sliced
+   from the buffer at an advancing offset.  Consequently the wire size of the
+   decoded value never exceeds the input length (the in-memory size is at most a
+   constant factor more; the harness measures it with a counting allocator). *)
+Theorem C10_tx_alloc : forall bs t,
+  bytes_ok bs = true -> decode_tx bs = Ok t -> size_tx t <= Nlen bs.
+Proof. exact tx_decoded_size. Qed.
+
+Theorem C10_block_alloc : forall bs b,
+  bytes_ok bs = true -> decode_block bs = Ok b -> size_block BT_FULL b <= Nlen bs.
+Proof. exact block_decoded_size. Qed.
+
+Theorem C10_ghost_alloc : forall bs g, decode_ghost bs = Ok g ->
+  36 + 82 * Nlen (g_prehashes g) <= Nlen bs
+  /\ Nlen (g_prev_hashes g) = Nlen (g_prehashes g) /\ Nlen (g_block_ids g) = Nlen (g_prehashes g)
+  /\ Nlen (g_block_ts g) = Nlen (g_prehashes g) /\ Nlen (g_txs g) = Nlen (g_prehashes g)
+  /\ Nlen (g_gts g) = Nlen (g_prehashes g).
+Proof. exact ghost_decoded_size. Qed.
+
 (* non-vacuity: inputs outside the classes on which the decoders do run their loops *)
 Example C10_example_outside_known :
   let bs := [0; 0; 0; 1; 0; 0; 0; 0; 0; 0; 0; 2; 0; 0; 0; 0] ++ repeat 0 77 ++ repeat 1 58 ++ [99; 5; 6] in
